@@ -39,6 +39,12 @@ def handle (op : String) (j : Json) : Option Json :=
       let t ← parseTree t
       let rec_ ← getBool? j "recursively"
       pure (Json.mkObj [("pids", natArr (killList t rec_)), ("all", natArr (allPids t))])
+  | "c16.sudo" => do
+      let t ← getObj? j "tree"
+      let t ← parseTree t
+      let kt ← getBool? j "kill_tree"
+      pure (Json.mkObj [("calls", Json.arr ((sudoCalls t kt).map (fun c => Json.arr (c.map Json.str).toArray)).toArray),
+                        ("killed", natArr (sudoKilled t kt))])
   | "c16.run" => do
       let s ← parseSituation j
       let t ← getObj? j "tree"
